@@ -13,6 +13,8 @@ R3 PIN/CHECK-MASKS (every `legals` body): sources are `pieces(P) & own & !pinned
    legal_king_move on the transit and the destination square; en-passant candidates come from
    adjacent_files(ep) & rank(ep) & own pawns, target ep.uforward(colour), and pass legal_ep_move.
 R5 INPUTS-FRESH (= C03.R2/R3): checkers / pinned, which the generator reads, are fresh and complete in every Board.
+R6 GEOMETRY (= C16.R1/R2 and C15.R1/R2): the compiled-in geometry tables, their accessors and the default slider lookups
+   the move sets are read from equal their definitions.
 R4 EP-RECHECK / KING-SAFETY: legal_ep_move recomputes slider attacks on the mover's king with both
    pawns' old squares removed and the destination added; legal_king_move removes the king from the
    occupancy, adds the destination and collects all five attacker kinds of the opponent."""
@@ -702,3 +704,5 @@ def run(ctx):
     r3(ctx)
     r4(ctx)
     r5(ctx)
+    # R6 GEOMETRY (= C16.R1/R2, C15.R1/R2): the tables and lookups every move set above is read from
+    tables_dep(ctx, 'C01.R6', ['movegen::movegen::MoveGen::new_legal', 'board::Board::legal'])
